@@ -252,6 +252,149 @@ def check_multi(elems, syntax, options):
 
 
 # ---------------------------------------------------------------------------------------------
+# snippet-backed elements, caller-supplied cache, call histories
+
+SNIPPET_ELEMENTS = ['a', 'img', 'link', 'input', 'btn', 'form', 'video', 'iframe', 'input:text', 'select', 'script:src', 'bdo:r',
+                    'button:s', 'opt', 'map', 'a:link']
+PLAIN_ELEMENTS = ['p', 'div', 'em']
+# alias -> (tag, mentions of its definition) for the aliases whose definition is a plain attribute list (emmet/snippets/html.py);
+# used for the absolute expectation `alias[M]` == `tag[definition][M]` when attributes are not reversed
+SNIPPET_DEFS = {
+    'a': ('a', [('href', None)]), 'img': ('img', [('src', None), ('alt', None)]), 'link': ('link', [('rel', 'stylesheet'), ('href', None)]),
+    'btn': ('button', []), 'form': ('form', [('action', None)]), 'video': ('video', [('src', None)]),
+    'iframe': ('iframe', [('src', None), ('frameborder', '0')]), 'script:src': ('script', [('src', None)]),
+    'bdo:r': ('bdo', [('dir', 'rtl')]), 'button:s': ('button', [('type', 'submit')]), 'opt': ('option', [('value', None)]),
+    'map': ('map', [('name', None)]),
+}
+SNIPPET_KINDS = {
+    '[href=u]': {'name': 'href', 'value': 'u', 'vt': 'raw'}, '[href]': {'name': 'href', 'value': None, 'vt': 'raw'},
+    '[src=s]': {'name': 'src', 'value': 's', 'vt': 'raw'}, '[alt=A]': {'name': 'alt', 'value': 'A', 'vt': 'raw'},
+    '[type=t]': {'name': 'type', 'value': 't', 'vt': 'raw'}, '[name=N]': {'name': 'name', 'value': 'N', 'vt': 'raw'},
+    '.x': {'name': 'class', 'value': 'x', 'vt': 'raw'}, '.y': {'name': 'class', 'value': 'y', 'vt': 'raw'},
+}
+MENTIONS.update(SNIPPET_KINDS)
+
+
+def _abbr_of(elems, shape):
+    parts = [name + ''.join(kinds) + ('*%d' % count if count > 1 else '') for name, kinds, count in elems]
+    if shape == 'child' and len(parts) > 1:
+        return parts[0] + '>' + '+'.join(parts[1:])
+    if shape == 'group2':
+        return '(' + '+'.join(parts) + ')*2'
+    return '+'.join(parts)
+
+
+def _expected_sequence(elems, shape):
+    if shape == 'child' and len(elems) > 1:
+        seq = []
+        for _ in range(elems[0][2]):
+            seq.append(elems[0])
+            for e in elems[1:]:
+                seq.extend([e] * e[2])
+        return seq
+    seq = []
+    for e in elems:
+        seq.extend([e] * e[2])
+    return seq * 2 if shape == 'group2' else seq
+
+
+def _open_tags(out):
+    return [(t['name'], t['attrs']) for t in parse_markup(out) if t['type'] == 'open']
+
+
+def check_snippet_elements(elems, shape, syntax, options, cache_mode, history):
+    """elements backed by built-in snippets (and plain ones) with their own mentions, several per abbreviation.
+    cache_mode: 'none' | 'dict' (config carries `cache: {}`) | 'config' (one Config object reused);
+    history: None or [elems, shape] expanded first with the *same* config / cache object.
+    Every produced tag must have exactly the attribute list that the same element written alone has under a fresh
+    config ("become attributes of exactly that element": nothing of other elements or earlier calls), and, for
+    aliases with a plain definition and attributes not reversed, the list spec_attrs(definition + mentions)."""
+    from emmet import expand
+    from emmet.config import Config
+    options = effective(syntax, options)
+    opts = dict(options)
+    opts['output.format'] = False
+
+    def fresh():
+        return {'syntax': syntax, 'options': dict(opts)}
+
+    cfg = fresh()
+    if cache_mode in ('dict', 'config'):
+        cfg['cache'] = {}
+    target = Config(cfg) if cache_mode == 'config' else cfg
+    trail = ''
+    if history:
+        habbr = _abbr_of(history[0], history[1])
+        expand(habbr, target)
+        trail = ' after expand(%r) with the same %s' % (habbr, 'Config object' if cache_mode == 'config' else 'config dict')
+    abbr = _abbr_of(elems, shape)
+    out = expand(abbr, target)
+    where = '%s (%s, %r, cache=%s)%s -> %r: ' % (abbr, syntax, options, cache_mode, trail, out)
+    try:
+        tags = _open_tags(out)
+    except MarkupError as e:
+        return where + 'not well-formed markup: %s' % e
+    seq = _expected_sequence(elems, shape)
+    if len(tags) != len(seq):
+        return where + '%d elements expected, %d found' % (len(seq), len(tags))
+    alone_cache = {}
+    for (tname, tattrs), (name, kinds, _) in zip(tags, seq):
+        key = name + ''.join(kinds)
+        if key not in alone_cache:
+            alone_cache[key] = _open_tags(expand(key, fresh()))[0]
+        aname, aattrs = alone_cache[key]
+        if tname != aname or tattrs != aattrs:
+            return where + 'element %s comes out as <%s %r>, but written alone under a fresh config it is <%s %r>' % (
+                key, tname, tattrs, aname, aattrs)
+        if name in SNIPPET_DEFS and not options.get('output.reverseAttributes'):
+            tag, defs = SNIPPET_DEFS[name]
+            ms = [{'name': n, 'value': v, 'vt': 'raw'} for n, v in defs] + _mentions_of(kinds)
+            what = None if tname == tag else 'tag <%s> expected' % tag
+            what = what or compare_attrs(tattrs, spec_attrs(ms, syntax, options), options)
+            if what:
+                return where + 'element %s (definition %s%s): %s' % (key, tag, ''.join(
+                    '[%s%s]' % (n, '' if v is None else '=' + v) for n, v in defs), what)
+    return None
+
+
+def _rand_elems(rng, kinds, nmax):
+    elems = []
+    for _ in range(rng.randint(1, nmax)):
+        name = rng.choice(SNIPPET_ELEMENTS + SNIPPET_ELEMENTS[:4] + PLAIN_ELEMENTS)
+        ks = [rng.choice(kinds) for _ in range(rng.randint(0, 3))]
+        elems.append([name, ks, rng.choice([1, 1, 1, 2])])
+    return elems
+
+
+def snippet_cases(rng, n_random, option_sets):
+    kinds = ['#i', '#j', '.c', '.d', '[n=v]', '[n]', '[n.]', '[!n]', '[m=1]', '[class=k]', '[n="v w"]'] + list(SNIPPET_KINDS)
+    small = ['', '.x', '.y', '#i', '[n=v]', '[href=u]', '[alt=A]']
+    names = ['a', 'img', 'link', 'input', 'btn', 'input:text', 'p']
+    modes = ['none', 'dict', 'config']
+    # exhaustive: two elements, one mention each, in one abbreviation and as a two-call history
+    k = 0
+    for n1 in names:
+        for n2 in names:
+            for k1 in small:
+                for k2 in small:
+                    e1 = [n1, [k1] if k1 else [], 1]
+                    e2 = [n2, [k2] if k2 else [], 1]
+                    k += 1
+                    syn = SYNTAXES[k % len(SYNTAXES)]
+                    o = option_sets[k % len(option_sets)]
+                    mode = modes[k % 3]
+                    yield ([e1, e2], ['sib', 'child', 'group2'][k % 3], syn, o, mode, None)
+                    yield ([e2], 'sib', syn, o, modes[1 + k % 2], [[e1], 'sib'])
+    for _ in range(n_random):
+        hist = None
+        mode = rng.choice(modes)
+        if rng.random() < 0.5:
+            hist = [_rand_elems(rng, kinds, 3), rng.choice(['sib', 'child', 'group2'])]
+            mode = rng.choice(modes[1:] + ['none'])
+        yield (_rand_elems(rng, kinds, 4), rng.choice(['sib', 'child', 'group2']), rng.choice(SYNTAXES), rng.choice(option_sets), mode, hist)
+
+
+# ---------------------------------------------------------------------------------------------
 
 SYNTAXES = ['html', 'xml', 'jsx', 'vue']
 
@@ -377,4 +520,16 @@ def run(tier, seed):
                              multi_cases_random(rng, 6000 if quick else 60000, k3, cover))
     run_parallel_sorted(c3, 'bounded.c03', 'check_multi', cases3, chunk=2000)
     c3.done()
-    return [c1, c2, c3]
+
+    n4 = 8000 if quick else 120000
+    c4 = Clause('attr-snippet-elements-and-cache', 'B',
+                'abbreviations with several snippet-backed elements (%r) and plain ones, each with its own mentions, as siblings, '
+                'parent>children or a group repeated twice; config without cache / with `cache: {}` / one Config object reused; '
+                'optionally preceded by another expansion with the same config (two-call history)' % (SNIPPET_ELEMENTS,),
+                'exhaustive: 7 names x 7 single mentions, two elements, once in one abbreviation and once as a two-call history '
+                '(syntax, option row, cache mode, shape rotating); random: %d cases of 1-4 elements with 0-3 mentions, half of them with a history' % n4,
+                'a case is (elements, shape, syntax, option row, cache mode, history); every tag must equal the tag of the same element '
+                'written alone under a fresh config, and for aliases with a plain definition spec_attrs(definition + mentions)', exhaustive=False)
+    run_parallel_sorted(c4, 'bounded.c03', 'check_snippet_elements', snippet_cases(rng, n4, cover), chunk=500)
+    c4.done()
+    return [c1, c2, c3, c4]
